@@ -78,8 +78,16 @@ def run(ck, rng):
         ck.count("scenario:" + scen)
         ck.count("variant:" + name)
         parts = impl[i].split("|")
+        if parts[0].split(" ")[0] in ("panic", "crash", "timeout"):
+            ck.violation({"property": ck.pid, "kind": "abnormal", "class": "abnormal|" + parts[0].split(" ")[0], "case": cases[i], "got": impl[i][-300:],
+                          "why": "the call did not return normally: " + parts[0]})
+            continue
         before = parse_snap(parts[0].split(" ")[2])
-        r, _, snap = parts[-1].split(" ")
+        r, _, snap = fs_result(parts[-1])
+        if r in ("panic", "crash", "timeout") or len(parts) < 2:
+            ck.violation({"property": ck.pid, "kind": "abnormal", "class": "abnormal|" + r, "case": cases[i], "got": impl[i][-300:],
+                          "why": "the call did not return normally: " + r})
+            continue
         after = parse_snap(snap)
         np_ = node_paths(its, exts)
         ct = clean_target(target)
